@@ -4,6 +4,7 @@
 From Coq Require Import List String Bool QArith Reals.
 Import ListNotations.
 Require Import Py ListsGen ConstGen AlgebraGen AlgebraSpec IfaceSpec Sem Term Poly Tactics PolyDomain PolySpec TermFacts PolyFacts TacticsFacts PolyDomainFacts EqFacts PolyKeepFacts.
+Require Import PyDict TermGen TermGenRename.
 
 (* a behaviour satisfies the renamed assumptions (and, under them, guarantees) exactly when the correspondingly renamed behaviour satisfied the originals *)
 Theorem C16 :
@@ -83,4 +84,11 @@ Theorem C16_term :
        sat (fun v : var => if (v =? s)%string then rho u else rho v) t.
 Proof. exact @rename_sem. Qed.
 Print Assumptions C16_term.
+
+(* T1 tie: PolyhedralTerm.rename_variable as translated from polyhedra.py on this run IS the model function (on terms without a stored zero) *)
+Theorem C16_code_rename_variable :
+  forall (t : pterm) (s u : var),
+       wft' t -> PolyhedralTerm_rename_variable t s u = ret (term_rename_variable t s u).
+Proof. exact @rename_variable_eq. Qed.
+Print Assumptions C16_code_rename_variable.
 
